@@ -29,10 +29,36 @@ META = {
     "and byte-identical (hash) with an OSError otherwise.  The decisions odc-geo itself takes (band-layout "
     "normalisation, default levels, block-size adjustment, overwrite table, compression-option normalisation) are a "
     "Lean model with theorems, compared with the real code exactly (exhaustive on small domains) and with the "
-    "block shapes / overview counts found in the written files.",
-    "note": "The Lean part is small (decision core only).  GDAL + rasterio encode AND decode are trusted entirely: "
-    "the claim 'an independent reader decodes the same image' rests on the round trip, not on a theorem.  The "
-    "ambiguous n x n x n layout is reported as ambiguous (always read as band-last), not judged. Not yet mirrored in the Lean model (inventory of the anchor files): the two-pass GDAL write itself (_write: windowed vs one-shot, MemoryFile temp, build_overviews, rio_copy with copy_src_overviews), _memfiles_ovr / the .ovr side-car chain of write_cog_layers, the GDAL Env options set around the copy (GDAL_TIFF_OVR_BLOCKSIZE, GDAL_DISABLE_READDIR_ON_OPEN, NUM_THREADS), resampling_s2rio, the extra_rio_opts pass-through other than nodata, xr_coords / _mk_crs_coord of _xr_interop.py (how the GeoBox and CRS are attached to the DataArray: judged by the full-CRS and source-affine read-back oracles; K22), tmp_opts = _without(rio_opts, compress, predictor, zlevel).",
+    "block shapes / overview counts found in the written files.  Since the growth round the glue of _rio.py (option "
+    "dictionaries, order of effects, overview requests, windowed writes, the supplied-overviews path) is a Lean call-trace model with "
+    "theorems, compared with the real module run against a recording stand-in for rasterio.",
+    "note": "GDAL + rasterio encode AND decode are trusted entirely: the claim 'an independent reader decodes the same image' rests on "
+    "the round trip, not on a theorem.  The ambiguous n x n x n layout is reported as ambiguous (always read as band-last), not judged.  "
+    "Growth round: everything _rio.py does between its public entry points and the GDAL calls is now a Lean call-trace model with "
+    "theorems (Model/C15Glue.lean, Props/C15Glue.lean): option dictionaries (precedence extra > nodata > defaults; first-pass options; "
+    "the memory copy inherits exactly what it drops), order of effects (layout error first, overwrite guard leaves nothing, unlink iff "
+    "exists and overwrite, an error never after a GDAL call, what is returned), which build_overviews request reaches GDAL (default "
+    "pyramid end to end from any layout), window-by-window writes (the block windows partition the image; the windowed write equals "
+    "the one-shot write of the normalised array), write_cog_layers (empty list, guard, nodata flow, .ovr side-car chain), write_cog "
+    "/ to_cog dispatch.  It is tied to the code by running the REAL module against a recording stand-in for rasterio (external entry "
+    "points rasterio.open / MemoryFile / Env / shutil.copy / uuid4 intercepted on the libraries and on whatever alias a loaded odc.geo "
+    "module holds; a probe decides whether the stand-in fits the tree, else the stage is skipped with a note) and comparing the "
+    "OBSERVABLE projection of the run: datasets opened with their options and the GDAL configuration in effect, that pixels were written "
+    "(completeness and values judged on the recorded dataset content by an independent oracle), overview requests, copies, removal of "
+    "the destination, the warning, result / exception.  rasterio reference semantics used by the model (block_windows, MemoryFile "
+    "names, Resampling members, dict order) are validated against the real libraries each run.  The round trip now also varies HOW "
+    "the geo-registered array was built (wrap_xr, 1-d coordinates dropped = GeoTransform only, CRS assigned for the first time / "
+    "re-assigned under the default or a custom coordinate name / on the Dataset, a window sliced out of a larger array; north-up and "
+    "rotated non-square grids) judged against the harness' own GeoBox and CRS definition, nodata=None spelled out, and decoy numbers "
+    "in encoding['_FillValue'] / attrs['_FillValue'].  Known finding K28 (repaired on branch fix2-C15): write_cog_layers lets an explicit "
+    "nodata=None override attrs['nodata'] (to_cog(xx, overviews=[..], nodata=None) loses the nodata); that input point is judged by "
+    "the oracle only.  Observations: assign_crs on an image with a 1-pixel side drops the only source of the pixel size (geobox None, "
+    "the writers refuse loudly; C09's subject, not generated); write_cog reads attrs['nodata'] only (documented) while xx.odc.nodata and "
+    "the dask writer also honour attrs['_FillValue'].  NOT mirrored in the Lean model (inventory of the anchor files): what GDAL does "
+    "with the calls (encoding, overview resampling, copy_src_overviews, decoding); resampling_s2rio for names that are attributes but "
+    "not members of the Resampling enum; _xr_interop.py xr_coords / _mk_crs_coord / assign_crs / _extract_geo_transform (how the "
+    "GeoBox and CRS are attached to and recovered from the DataArray: judged by the provenance round trips; K22); intermediate_compression "
+    "dicts that carry keys other than compression settings (e.g. a named parameter of _write_cog).",
     "technique": "Lean 4 proof over hand model of the decision core + differential correspondence + GDAL round trip",
     "design_ref": "DESIGN.md §4 C15",
 }
@@ -109,7 +135,8 @@ def _crs_same_wkt(wkt: str, spec: str):
     return _CRS_CMP[wkt, spec]
 
 
-def mk_gbox(rng: random.Random, h: int, w: int, GeoBox, allow_rot=True):
+def mk_gbox(rng: random.Random, h: int, w: int, GeoBox, allow_rot=True, force=None):
+    """`force`: None | "northup" | "rot_nonsquare" (rotated AND non-square pixels: the two off-diagonal terms differ)"""
     from affine import Affine  # pylint: disable=import-outside-toplevel
     from odc.geo.crs import CRS  # pylint: disable=import-outside-toplevel
 
@@ -131,10 +158,17 @@ def mk_gbox(rng: random.Random, h: int, w: int, GeoBox, allow_rot=True):
         res = rng.choice([1, 10, 30, 0.5, 2.5, 25])
         x0, y0 = rng.randint(-100000, 100000) * 0.5, rng.randint(-100000, 100000) * 0.5
     r = rng.random()
+    if force == "northup":
+        r = min(r, 0.59)
+    elif force == "rot_nonsquare" and min(h, w) >= 2:
+        r = 0.6 + 0.15 * rng.random()
     if r < 0.6 or not allow_rot or min(h, w) < 2:
         A = Affine(res, 0, x0, 0, -res, y0) if r < 0.5 else Affine(res, 0, x0, 0, res, y0)
     elif r < 0.75:
-        A = Affine(res, res / 4, x0, res / 8, -res, y0)  # rotated / sheared
+        if force == "rot_nonsquare" and rng.random() < 0.5:
+            A = Affine.translation(x0, y0) * Affine.rotation(rng.choice([30, -20, 7, 45])) * Affine.scale(res, -res * rng.choice([2, 1.5, 0.5]))
+        else:
+            A = Affine(res, res / 4, x0, res / 8, -res, y0)  # rotated / sheared
     else:
         # slightly rotated grids at every pixel-size scale (1e-6 deg ... 1e5 m) and small angles (0.01 ... 5 deg): the
         # off-diagonal terms span ~1e-10 ... 1e4.  (Below 1e-10 — the absolute tolerance of math.is_affine_st — the rotation
@@ -238,7 +272,7 @@ def gen_cfg(rng: random.Random, big_ok: bool):
         dt = rng.choice(DTYPES)
     cands = nodata_candidates(dt)
     attrs_nd = rng.choice([None, rng.choice(cands)])
-    kw_mode = rng.choice(["absent", "absent", "same", "different"])
+    kw_mode = rng.choice(["absent", "absent", "same", "different", "explicit_none"])
     if kw_mode == "same":
         kw_nd = attrs_nd
     elif kw_mode == "different":
@@ -261,6 +295,8 @@ def gen_cfg(rng: random.Random, big_ok: bool):
         container=rng.choice(CONTAINERS),
         nd_spell_attrs=rng.choice(SPELLINGS), nd_spell_kw=rng.choice(SPELLINGS),
         int_spell=rng.choice(["py", "py", "np_i64", "np_i32"]),
+        prov=rng.choice(["wrap", "wrap"] + PROVS), gb_kind=rng.choice([None, None, None, "rot_nonsquare"]),
+        kw_none_explicit=kw_mode == "explicit_none", nd_decoy=rng.choice([None, None, "enc", "attr_fill", "both"]),
     )
 
 
@@ -320,18 +356,82 @@ def mk_content(prng, cfg, nodata):
     return out
 
 
+# how the geo-registered array reached the writer.  Ground truth is always the GeoBox / CRS definition the HARNESS built
+# (`gbox_src`, `_crs_spec`), never what the accessor reports.
+PROVS = ["wrap", "nocoords", "reassign", "reassign_custom", "custom_both", "first_assign", "ds_assign", "sliced", "sliced_reassign"]
+
+
+def other_crs(rng: random.Random, spec: str) -> str:
+    return rng.choice([c for c in CRS_POOL if c != spec])
+
+
 def build(cfg, GeoBox, wrap_xr):
+    # pylint: disable=import-outside-toplevel,too-many-locals,too-many-branches
+    import xarray as xr
+
     rng = random.Random(cfg["seed"])
     prng = np.random.default_rng(cfg["seed"])
     h, w, nb, layout = cfg["h"], cfg["w"], cfg["nb"], cfg["layout"]
-    gbox, crs_spec = mk_gbox(rng, h, w, GeoBox)
+    gbox, crs_spec = mk_gbox(rng, h, w, GeoBox, force=cfg.get("gb_kind"))
     cfg["_crs_spec"] = crs_spec
     want = mk_content(prng, cfg, expected_nodata(cfg))
     pix = want[0] if layout == "YX" else (want if layout == "SYX" else np.ascontiguousarray(want.transpose(1, 2, 0)))
     kw = {}
     if layout == "SYX":
         kw["time"] = [f"20{i:02d}-01-01" for i in range(nb)]
-    xx = wrap_xr(pix, gbox, nodata=spell(cfg["attrs_nodata"], cfg.get("nd_spell_attrs", "py"), cfg["dtype"]), **kw)
+    nd = spell(cfg["attrs_nodata"], cfg.get("nd_spell_attrs", "py"), cfg["dtype"])
+    prov = cfg.get("prov", "wrap")
+    if min(h, w) < 2 and prov not in ("wrap", "nocoords", "sliced"):
+        # assign_crs on an image with a 1-pixel side: the replaced CRS coordinate no longer carries the GeoTransform that
+        # is the only source of the pixel size along a 1-pixel axis -> `.odc.geobox` is None and the writers refuse the
+        # array loudly (ValueError); registration after array operations is property C09's subject, not generated here
+        prov = "sliced" if prov == "sliced_reassign" else "wrap"
+    ydim = 1 if layout == "SYX" else 0
+    src_pix, src_gbox = pix, gbox
+    if prov.startswith("sliced"):
+        # the image is a window of a larger geo-registered array (a non-contiguous view of its data)
+        py0, py1, px0, px1 = (rng.randint(0, 3) for _ in range(4))
+        if py0 + py1 + px0 + px1 == 0:
+            px0 = 1
+        src_gbox = GeoBox((h + py0 + py1, w + px0 + px1), gbox.affine * type(gbox.affine).translation(-px0, -py0), gbox.crs)
+        shp = list(pix.shape)
+        shp[ydim], shp[ydim + 1] = h + py0 + py1, w + px0 + px1
+        src_pix = mk_pix(prng, tuple(shp), cfg["dtype"])
+        sl = [slice(None)] * pix.ndim
+        sl[ydim], sl[ydim + 1] = slice(py0, py0 + h), slice(px0, px0 + w)
+        src_pix[tuple(sl)] = pix
+    wrong = GeoBox(src_gbox.shape, src_gbox.affine, other_crs(rng, crs_spec))
+    right = gbox.crs
+    if prov in ("wrap", "nocoords", "sliced"):
+        xx = wrap_xr(src_pix, src_gbox, nodata=nd, **kw)
+    elif prov in ("reassign", "sliced_reassign"):
+        xx = wrap_xr(src_pix, wrong, nodata=nd, **kw).odc.assign_crs(right)
+    elif prov == "reassign_custom":   # CRS coordinate under a custom name, corrected with the default call
+        xx = wrap_xr(src_pix, wrong, nodata=nd, crs_coord_name="crs", **kw).odc.assign_crs(right)
+    elif prov == "custom_both":
+        xx = wrap_xr(src_pix, wrong, nodata=nd, crs_coord_name="crs", **kw).odc.assign_crs(right, crs_coord_name="crs")
+    elif prov == "first_assign":      # no CRS coordinate at all, then assigned
+        xx = wrap_xr(src_pix, wrong, nodata=nd, crs_coord_name=None, **kw).odc.assign_crs(right)
+    elif prov == "ds_assign":         # assigned on the Dataset, variable taken out afterwards
+        xx = xr.Dataset({"band_a": wrap_xr(src_pix, wrong, nodata=nd, **kw)}).odc.assign_crs(right)["band_a"]
+    else:
+        raise ValueError(prov)
+    if prov == "nocoords":
+        # rioxarray style for rotated sources: no 1-d axis coordinates, the grid is in spatial_ref.attrs['GeoTransform'] only
+        xx = xx.drop_vars([d for d in xx.odc.spatial_dims if d in xx.coords])
+    if prov.startswith("sliced"):
+        xx = xx[tuple(sl)]
+        pix = xx.data
+    # other places a number that looks like a nodata value can sit in: the writer documents attrs['nodata'] (and the nodata=
+    # keyword) as its sources; a DIFFERENT number in encoding['_FillValue'], or in attrs['_FillValue'] next to attrs['nodata'],
+    # must not end up in the file
+    decoy = cfg.get("nd_decoy")
+    if decoy:
+        other = 3 if not same_nodata(cfg["attrs_nodata"], 3) and not same_nodata(cfg["kw_nodata"], 3) else 5
+        if decoy in ("enc", "both"):
+            xx.encoding["_FillValue"] = other
+        if decoy in ("attr_fill", "both") and cfg["attrs_nodata"] is not None:
+            xx.attrs["_FillValue"] = other
     return xx, pix, want, gbox
 
 
@@ -453,6 +553,10 @@ def one_case(cfg, workdir, tag, shared=None):
             kw["intermediate_compression"] = shared["icomp"]
     if cfg["kw_nodata"] is not None:
         kw["nodata"] = spell(cfg["kw_nodata"], cfg.get("nd_spell_kw", "py"), cfg["dtype"])
+    elif cfg.get("kw_none_explicit"):
+        kw["nodata"] = None  # the documented default spelled out (wrappers forward their own nodata=None): same as not given
+    # explicit None on the supplied-overviews path: known finding while unrepaired (write_cog_layers lets it override attrs)
+    none_on_layers = "nodata" in kw and kw["nodata"] is None and (cfg["entry"] == "write_cog_layers" or cfg["ovr_mode"] == "supplied")
     ydim = 1 if layout == "SYX" else 0
     layers = [xx]
     if ovr_mode == "supplied":
@@ -580,7 +684,9 @@ def one_case(cfg, workdir, tag, shared=None):
             if not crs_ok:
                 fails.append(("crs-differs", crs_msg))
             if not same_nodata(f.nodata, nodata):
-                fails.append(("nodata-differs", f"file says {f.nodata}, requested {nodata} (attrs {cfg['attrs_nodata']}, keyword {cfg['kw_nodata']})"))
+                fails.append(("nodata-differs:explicit-none-with-supplied-overviews" if none_on_layers and cfg["attrs_nodata"] is not None else "nodata-differs",
+                              f"file says {f.nodata}, requested {nodata} (attrs {cfg['attrs_nodata']}, keyword {cfg['kw_nodata']}"
+                              + (", nodata=None passed explicitly" if "nodata" in kw and kw["nodata"] is None else "") + ")"))
             if len(set(f.block_shapes)) != 1:
                 fails.append(("block-shapes-vary", f"{f.block_shapes}"))
             by, bx = f.block_shapes[0]
@@ -597,7 +703,8 @@ def one_case(cfg, workdir, tag, shared=None):
             # nodata as resolved by the writer vs the model's resolution order (spellings as actually passed)
             m_entry = "write_cog_layers" if entry == "write_cog_layers" else ("write_cog_ovrs" if ovr_mode == "supplied" else
                                                                             ("to_cog" if entry in ("to_cog", "acc_to_cog") else "write_cog"))
-            facts["nodata_line"] = f"c15 nodata {m_entry} {num_s(kw.get('nodata'))} {num_s(xx.attrs.get('nodata'))}"
+            if not none_on_layers:
+                facts["nodata_line"] = f"c15 nodata {m_entry} {num_s(kw.get('nodata'))} {num_s(xx.attrs.get('nodata'))}"
             facts["nodata"] = "N" if f.nodata is None else ("nan" if math.isnan(f.nodata) else frac_s(float(f.nodata)))
             if all(abs(v) < 2.0**40 and float(v).as_integer_ratio()[1] <= 2**30 for v in tuple(gbox.transform)[:6]):
                 a_ = gbox.transform
@@ -671,9 +778,11 @@ def cube(shape) -> bool:
 def cfg_sig(cfg) -> str:
     size = "big" if min(cfg["h"], cfg["w"]) >= 512 else ("tiny" if min(cfg["h"], cfg["w"]) < 16 else "small")
     nd = "kw" if cfg["kw_nodata"] is not None else ("attrs" if cfg["attrs_nodata"] is not None else "none")
+    if cfg.get("kw_none_explicit") and cfg["kw_nodata"] is None:
+        nd += "+kwNone"
     env = "+".join(sorted(k.replace("GDAL_", "").lower()[:14] for k in ENVS[cfg["env"]])) or "default"
     return f"rt|{cfg['entry']}|{cfg['dest']}|ovr={cfg['ovr_mode']}|nodata={nd}|{cfg['content']}|{cfg['layout']}|{size}|env={env}" + (
-        "|windowed" if cfg["windowed"] else "")
+        "|windowed" if cfg["windowed"] else "") + ("" if cfg.get("prov", "wrap") == "wrap" else f"|prov={cfg['prov']}")
 
 
 def run_case(R: Run, cfg, workdir, tag, shared=None):
@@ -714,12 +823,29 @@ def run(R: Run):
 
     rng = R.rng
 
+    # ---- the glue of _rio.py as a call trace against a recording stand-in for rasterio (harness/c15_glue.py)
+    from .c15_glue import run_glue  # pylint: disable=import-outside-toplevel
+
+    run_glue(R)
+
+    def private(name):
+        """private helpers are looked up defensively: a tree without the name loses only the direct stream (note in the evidence)"""
+        fn_ = getattr(RIO, name, None)
+        if fn_ is None:
+            R.notes.append(f"odc.geo.cog._rio.{name} not found: direct stream skipped, the behaviour is judged through the public entry points")
+        return fn_
+
+    default_cog_opts, write_cog_impl, norm_compression_opts = private("_default_cog_opts"), private("_write_cog"), private("_norm_compression_opts")
+
     # ---- _default_cog_opts / adjust_blocksize: exhaustive small, random large
     def opts_case(b, w, h, fl, sig):
+        if default_cog_opts is None:
+            return
+
         def f():
             with warnings.catch_warnings():
                 warnings.simplefilter("ignore")
-                o = RIO._default_cog_opts(blocksize=512 if b is None else b, shape=(h, w), is_float=fl)  # pylint: disable=protected-access
+                o = default_cog_opts(blocksize=512 if b is None else b, shape=(h, w), is_float=fl)
             bb = 512 if b is None else b
             return f"{o['blockxsize']} {o['blockysize']} {o['predictor']} {bool_s(bb % 16 != 0)}"
 
@@ -744,13 +870,15 @@ def run(R: Run):
 
     # ---- band layout normalisation, through the real `_write_cog` (tiny images, memory)
     def layout_case(shape, g):
+        if write_cog_impl is None:
+            return
         gb = GeoBox(g, Affine(1, 0, 0, 0, -1, 0), "epsg:3857")
         pix = np.arange(int(np.prod(shape)), dtype="int16").reshape(shape)
 
         def f():
             import rasterio  # pylint: disable=import-outside-toplevel
 
-            bb = RIO._write_cog(pix, gb, ":mem:", blocksize=16, overview_levels=[])  # pylint: disable=protected-access
+            bb = write_cog_impl(pix, gb, ":mem:", blocksize=16, overview_levels=[])
             with rasterio.MemoryFile(bb).open() as src:
                 got = src.read()
             tr = len(shape) == 3 and tuple(shape[:2]) == tuple(g)
@@ -797,7 +925,7 @@ def run(R: Run):
 
             # observe the decision through the overviews of a real (constant, highly compressible) file
             gb = GeoBox((h, w), Affine(1, 0, 0, 0, -1, 0), "epsg:3857")
-            bb = RIO._write_cog(np.zeros((h, w), dtype="uint8"), gb, ":mem:", overview_levels=req)  # pylint: disable=protected-access
+            bb = RIO.to_cog(wrap_xr(np.zeros((h, w), dtype="uint8"), gb), overview_levels=req)
             sizes = []
             with rasterio.MemoryFile(bb).open() as src:
                 n = len(src.overviews(1))
@@ -837,14 +965,14 @@ def run(R: Run):
                     return list_s(acts + ["write"]) + " ok"  # caller writes next
 
                 R.corr(f"c15 plan F {bool_s(exists)} {bool_s(ow)}", f, sig=f"plan|exists={exists}|overwrite={ow}")
-        for c in [True, False, "zstd", "lzw", "deflate", {"compress": "lzw"}, {"compress": "zstd", "zstd_level": 3}, {}]:
-            R.corr(f"c15 ncompfresh {comp_s(c)}", lambda: bool_s(RIO._norm_compression_opts(c) is not c), sig="ncomp|fresh")  # pylint: disable=protected-access
+        for c in [True, False, "zstd", "lzw", "deflate", {"compress": "lzw"}, {"compress": "zstd", "zstd_level": 3}, {}] if norm_compression_opts is not None else []:
+            R.corr(f"c15 ncompfresh {comp_s(c)}", lambda: bool_s(norm_compression_opts(c) is not c), sig="ncomp|fresh")
             R.corr(f"c15 ncomp {comp_s(c)}",
-                   lambda: list_s([f"{k}={v}" for k, v in RIO._norm_compression_opts(c).items()]), sig="ncomp")  # pylint: disable=protected-access
+                   lambda: list_s([f"{k}={v}" for k, v in norm_compression_opts(c).items()]), sig="ncomp")
 
         # ---- the GDAL round trip (dominant part)
         n_cases = R.pick(220, 5000)
-        t_budget = R.pick(25, 360)
+        t_budget = R.pick(25, 300)
         t0 = time.time()
         done = 0
         def mk(**over):
@@ -868,6 +996,24 @@ def run(R: Run):
         for i, cfg in enumerate(fixed):
             run_case(R, cfg, workdir, f"k{i}")
             done += 1
+
+        # ---- provenance of the geo-registered array x grid kind x destination, every run: built by wrap_xr, 1-d coordinates
+        # dropped (GeoTransform only), CRS assigned for the first time / re-assigned (default and custom coordinate name, on
+        # the DataArray or its Dataset), a window sliced out of a larger array; each on a north-up grid and on a rotated grid
+        # with non-square pixels; transform and CRS read back are judged against the harness' own GeoBox / CRS definition
+        k_ = 0
+        for prov in PROVS:
+            for gb_kind in ("northup", "rot_nonsquare"):
+                for entry_ in (("to_cog", "acc_write_cog") if R.quick else ENTRIES):
+                    k_ += 1
+                    lay_ = ["YX", "SYX", "YXS"][k_ % 3]
+                    cfg = mk(prov=prov, gb_kind=gb_kind, entry=entry_, dest="mem" if entry_ in ("to_cog", "acc_to_cog") else DESTS[k_ % 2],
+                             layout=lay_, nb=1 if lay_ == "YX" else 1 + k_ % 3, h=[6, 12, 40, 7][k_ % 4], w=[9, 20, 33, 5][(k_ // 2) % 4],
+                             dtype=DTYPES[k_ % len(DTYPES)], blocksize=[16, 32][k_ % 2], ovr_mode=["none", "levels", "supplied"][k_ % 3],
+                             overview_levels=[2], seed=9000 + k_)
+                    cfg["attrs_nodata"] = [None, nodata_candidates(cfg["dtype"])[0]][k_ % 2]
+                    run_case(R, cfg, workdir, f"p{k_}")
+                    done += 1
 
         # ---- layout x size-threshold x DEFAULT options: every axis layout the writer accepts (2-D, band-first, band-last with
         # 1 / 3 / 4 bands) with the smaller spatial side on both sides of the 512 px default-overview threshold, overview
@@ -916,7 +1062,7 @@ def run(R: Run):
             for dest in (["mem"] if entry in ("to_cog", "acc_to_cog") else DESTS):
                 for ovr_mode in (["none", "supplied"] if entry == "write_cog_layers" else OVR_MODES):
                     for attrs_has in (False, True):
-                        for kw_mode in ("absent", "same", "different"):
+                        for kw_mode in ("absent", "same", "different", "explicit_none"):
                             if kw_mode == "same" and not attrs_has:
                                 continue
                             for windowed in (False, True):
@@ -926,7 +1072,7 @@ def run(R: Run):
                                     cands = nodata_candidates(dt)
                                     a = cands[n % len(cands)] if attrs_has else None
                                     others = [c for c in cands if not same_nodata(c, a)]
-                                    k = None if kw_mode == "absent" else (a if kw_mode == "same" else others[(n // 3) % len(others)])
+                                    k = None if kw_mode in ("absent", "explicit_none") else (a if kw_mode == "same" else others[(n // 3) % len(others)])
                                     layout = ["YX", "SYX", "YXS"][n % 3]
                                     matrix.append(mk(
                                         layout=layout, nb=1 if layout == "YX" else 1 + n % 3, h=[96, 70, 130, 48][n % 4],
@@ -937,12 +1083,14 @@ def run(R: Run):
                                         resampling=[None, "nearest", "average"][n % 3], content=CONTENTS[n % len(CONTENTS)],
                                         env=env, seed=1000 + n, container=CONTAINERS[n % len(CONTAINERS)],
                                         nd_spell_attrs=SPELLINGS[n % len(SPELLINGS)], nd_spell_kw=SPELLINGS[(n // 2) % len(SPELLINGS)],
-                                        int_spell=["py", "np_i64", "np_i32"][n % 3]))
+                                        int_spell=["py", "np_i64", "np_i32"][n % 3],
+                                        prov=(["wrap"] + PROVS)[(n // 5) % (len(PROVS) + 1)], gb_kind=[None, "rot_nonsquare", None][(n // 7) % 3],
+                                        kw_none_explicit=kw_mode == "explicit_none", nd_decoy=[None, "enc", "attr_fill", "both"][(n // 3) % 4]))
         R.extra["cross_product_size"] = len(matrix)
         pick = matrix if not R.quick else rng.sample(matrix, 260)
         t1 = time.time()
         for i, cfg in enumerate(pick):
-            if time.time() - t1 > R.pick(25, 300):
+            if time.time() - t1 > R.pick(25, 250):
                 R.notes.append(f"cross-product loop stopped by time budget after {i} of {len(pick)} cases")
                 break
             run_case(R, cfg, workdir, f"m{i}")
@@ -983,7 +1131,7 @@ def run(R: Run):
 
         t_seq = time.time()
         for k in range(R.pick(10, 200)):
-            if time.time() - t_seq > R.pick(12, 150):
+            if time.time() - t_seq > R.pick(12, 110):
                 break
             sequence(k)
             done += 1
@@ -1021,9 +1169,31 @@ def replay(R: Run, rec) -> int:
         for k, w in fails:
             print("FAIL", k, w)
         return 1 if fails else 0
+    if isinstance(case, dict) and "line" in case:
+        # a case of the call-trace stage: the model's projection for the recorded line, and — for the nodata class — the real
+        # writer with real GDAL on an equivalent input
+        try:
+            print("model:", run_driver("C15", [case["line"]])[0][:600])
+        except Exception as e:  # pylint: disable=broad-except
+            print("driver unavailable:", e)
+        if str(rec.get("key", "")).startswith("nodata-differs"):
+            import rasterio  # pylint: disable=import-outside-toplevel
+            from affine import Affine  # pylint: disable=import-outside-toplevel
+
+            RIO, _, GeoBox, wrap_xr = _imp()
+            xx = wrap_xr(np.ones((40, 48), "uint8"), GeoBox((40, 48), Affine(10, 0, 0, 0, -10, 0), "epsg:3857"), nodata=255)
+            with rasterio.MemoryFile(RIO.to_cog(xx, overviews=[xx[::2, ::2]], nodata=None)) as m, m.open() as f:
+                print("to_cog(xx, overviews=[...], nodata=None) with attrs nodata 255 -> file nodata", f.nodata)
+                return 0 if f.nodata == 255 else 1
+        print("re-run the check with the recorded seed/tier for the full trace")
+        return 0
     if isinstance(case, dict) and "blocksize" in case and "w" in case:
         RIO, _, _, _ = _imp()
-        o = RIO._default_cog_opts(blocksize=case["blocksize"] or 512, shape=(case["h"], case["w"]))  # pylint: disable=protected-access
+        fn_ = getattr(RIO, "_default_cog_opts", None)
+        if fn_ is None:
+            print("no _default_cog_opts in this tree; nothing to replay directly")
+            return 0
+        o = fn_(blocksize=case["blocksize"] or 512, shape=(case["h"], case["w"]))
         print("real:", o)
         return 0 if o["blockxsize"] % 16 == 0 and o["blockysize"] % 16 == 0 else 1
     print("no specific replay for this key; re-run the check with the recorded seed/tier")
